@@ -101,7 +101,10 @@ func VerifC20Keys() {
 	h.OnSubscribed(vStoreClient(id1), packets.Packet{Filters: packets.Subscriptions{{Filter: f1}}}, []byte{0})
 	h.OnSubscribed(vStoreClient(id2), packets.Packet{Filters: packets.Subscriptions{{Filter: f2}}}, []byte{0})
 	ss, _ := h.StoredSubscriptions()
-	vAssert("kf-subscription-key-id-colon-filter-not-injective", len(ss) == 2)
+	if id1+":"+f1 == id2+":"+f2 {
+		// recorded class: exactly the pairs whose "<id>:<filter>" concatenations coincide
+		vAssert("kf-subscription-key-id-colon-filter-not-injective", len(ss) == 2)
+	}
 	vAssert("two-subscriptions-two-records", len(ss) == 2)
 	vReach("end")
 }
